@@ -19,7 +19,7 @@ EXPLANATION = (
     "(K5c) inside a recursion cycle of a translator every AST argument of the recursive call comes from the caller's own parameters, never from a by-name lookup in a table the translator owns (a self-referential definition would recurse for ever); (K8) every cycle of every loop in the five lexers and parsers passes a block that moves the input cursor, calls a function that "
     "always consumes input on its success paths (whose error side cannot re-enter the loop), or pulls a finite iterator - otherwise "
     "some input makes the loop spin for ever. "
-    "Slice-index bounds, allocation size and progress of a cursor primitive at the end of input are not decided.")
+    "(K8b) on parser loops that consume only through the bare cursor primitive, each primitive call is behind a positive test of the current token, so the loop ends at the end of input. Slice-index bounds and allocation size are not decided.")
 ASSUMPTIONS = ["overflow checks are on in the profile the tests run in (dev/test), so an arithmetic Assert is a reachable panic",
                "rapid type analysis from the session entry points decides which operators are reachable"]
 
